@@ -126,7 +126,7 @@ Definition ratio (p n : nat) : Q := (inject_Z (Z.of_nat p) / inject_Z (Z.of_nat 
    flag_q is the rule as the property states it, over exact rationals (theorems); flag_f is the rule as the code
    evaluates it, `n_positive / float(n) > threshold` in binary64 (execution): the two differ only when the exact ratio
    lies within rounding distance of the threshold without being equal to it (e.g. 14/20 against the double nearest 0.7);
-   for the default threshold they agree for every count up to 400 (C18_ex_occupancy_float_rule_agrees) *)
+   for the default threshold they agree for every count up to 250 (C18_ex_occupancy_float_rule_agrees) *)
 Definition flag_q (thr : Q) (p n : nat) : bool :=
   match n with
   | O => true
